@@ -110,9 +110,11 @@ theorem C10_dephase_restores (cfg : Cfg) (s : St) (v : Int) (hns : s.actPC ≠ s
     simp [decode, codeDEPHASE, hns, he, writeCode, chkPC, pc, upd]
 
 /-- **SAVE/RESTORE**: RESTORE reinstates the CPU, segment and listing flag of the matching SAVE and pops the
-stack (LIFO: whatever the top entry is, that is what comes back). -/
+stack (LIFO: whatever the top entry is, that is what comes back).  `hp`: the saved segment is a real segment -
+a SAVE issued inside a STRUCT body records the structure pseudo segment, which RESTORE does not reinstate
+(`C10_restore_struct_segment`). -/
 theorem C10_save_restore (cfg : Cfg) (s : St) (c p : Nat) (l : Bool) (rest : List (Nat × Nat × Bool))
-    (hs : s.saves = (c, p, l) :: rest) :
+    (hs : s.saves = (c, p, l) :: rest) (hp : p ≠ structSeg) :
     (step cfg s ⟨none, .restore⟩).1.cpu = c ∧ (step cfg s ⟨none, .restore⟩).1.actPC = p ∧
     (step cfg s ⟨none, .restore⟩).1.listOn = l ∧ (step cfg s ⟨none, .restore⟩).1.saves = rest ∧
     (step cfg s ⟨none, .save⟩).1.saves = (s.cpu, s.actPC, s.listOn) :: s.saves := by
@@ -121,7 +123,20 @@ theorem C10_save_restore (cfg : Cfg) (s : St) (c p : Nat) (l : Bool) (rest : Lis
   simp only [step, labelPart, writeCode_actPC]
   rw [k.2.2.1, k.2.2.2.1, k.2.2.2.2, k2.2.2.2.2]
   simp only [decode, codeRESTORE, codeSAVE, hs]
-  by_cases h1 : p = s.actPC <;> by_cases h2 : c = s.cpu <;> simp [h1, h2]
+  by_cases h1 : p = s.actPC <;> by_cases h2 : c = s.cpu <;> simp [h1, h2, hp]
+
+/-- RESTORE of an entry that recorded the structure pseudo segment (SAVE inside a STRUCT body) leaves the active
+segment alone and still reinstates CPU and listing flag and pops the entry - the pseudo segment never becomes
+active outside a structure (before the repair `f8e9b53` it did, and the next statement crashed). -/
+theorem C10_restore_struct_segment (cfg : Cfg) (s : St) (c : Nat) (l : Bool) (rest : List (Nat × Nat × Bool))
+    (hs : s.saves = (c, structSeg, l) :: rest) :
+    (step cfg s ⟨none, .restore⟩).1.cpu = c ∧ (step cfg s ⟨none, .restore⟩).1.actPC = s.actPC ∧
+    (step cfg s ⟨none, .restore⟩).1.listOn = l ∧ (step cfg s ⟨none, .restore⟩).1.saves = rest := by
+  have k := writeCode_keeps (decode cfg s .restore)
+  simp only [step, labelPart, writeCode_actPC]
+  rw [k.2.2.1, k.2.2.2.1, k.2.2.2.2]
+  simp only [decode, codeRESTORE, hs]
+  by_cases h2 : c = s.cpu <;> simp [h2]
 
 /-- **ALIGN n**: with `0 < n < 2^16` and `$ + n - 1 < 2^31` (the widths of `AlignValue : Word`, `NewPC : LongInt`)
 the statement's length makes `$` the next multiple of `n`: `n ∣ $ + len`, `0 ≤ len < n`; and outside structures,
